@@ -366,7 +366,127 @@ def logout_histories(W, n):
 
 
 # ---------------------------------------------------------------------------------------------
-REGISTRY = {"C01": c01, "C09": c09}
+# grammar families enumerated by TLC (specs/Families.tla)
+
+
+def family(W, fam, tier=None):
+    cfg = 'SPECIFICATION Spec\nCONSTANTS\n  Family = "%s"\n  Tier = "%s"\nINVARIANT Emit\nCHECK_DEADLOCK FALSE\n' % (fam, tier or W.tier)
+    out, viol = W.tlc_exhaustive("Families", cfg, "family-" + fam, workers=1, timeout=1200)
+    sc = W.scenarios_from(out)
+    log("[gen] family %s: %d scenarios enumerated by TLC" % (fam, len(sc)))
+    return sc
+
+
+def design_mc(W, name, invariants, **over):
+    base = dict(Checks="{1,2,3}", MaxInFlight=2, Attacker="TRUE", MaxFaults=1, TokLife=0)
+    if W.tier == "thorough":
+        base.update(Checks="{1,2,3,4}")
+    base.update(over)
+    out, viol = W.tlc_exhaustive("AuthFlow", af_cfg(invariants, **base), name, workers=16, timeout=3000)
+    if viol:
+        raise Infra("AuthFlow violates %s in configuration %s: the specification is wrong or the design is" % (viol, name))
+
+
+ASSUME_SYS = [
+    "token ground truth (signature, audience, nonce, expiry) comes from the simulated identity provider that rendered the token",
+    "one check runs at a time between gates (store call, token-endpoint call, key lookup)",
+]
+
+
+def c02(W, replay=None):
+    W.build()
+    scen = []
+    if not replay:
+        design_mc(W, "c02-design", ["TokensOnlyUnderIssued", "TokensFromOwnLogin"])
+        scen = family(W, "C02")
+        if W.tier == "thorough":
+            scen += random_histories(W, 800, faults=True)
+    return sys_pipeline("C02", W, scen, None, ASSUME_SYS + ["the strength of jws.Verify itself is trusted; classes are the enumerated grammar and its rendered variants"], replay=replay)
+
+
+def c03(W, replay=None):
+    W.build()
+    scen = [] if replay else family(W, "C03")
+    return sys_pipeline("C03", W, scen, None, ASSUME_SYS + ["callback and logout paths satisfy the trigger rules (documented precondition)",
+                                                         "the browser follows every 302 and keeps cookies per RFC 6265 user-agent parsing"], replay=replay)
+
+
+def c04(W, replay=None):
+    W.build()
+    scen = []
+    if not replay:
+        design_mc(W, "c04-design", ["ExchangeBound", "TokensFromOwnLogin"], Kinds='{"app","callback"}', MaxCode=3 if W.tier == "thorough" else 2)
+        scen = family(W, "C04") + attacker_family(W, 600 if W.tier == "thorough" else 150)
+    return sys_pipeline("C04", W, scen, None, ASSUME_SYS + ["the simulated token endpoint logs exactly what it was sent and is strict (RFC 6749/7636)"], replay=replay)
+
+
+def c05(W, replay=None):
+    W.build()
+    scen = []
+    if not replay:
+        design_mc(W, "c05-design", ["TokensOnlyUnderIssued"])
+        scen = family(W, "C05") + attacker_family(W, 400 if W.tier == "thorough" else 80)
+        if W.tier == "thorough":
+            scen += random_histories(W, 500)
+    return sys_pipeline("C05", W, scen, None, ASSUME_SYS, replay=replay)
+
+
+def c11(W, replay=None):
+    W.build()
+    scen = []
+    if not replay:
+        scen = family(W, "C11")
+        if W.tier == "thorough":
+            scen += random_histories(W, 500, long=True)
+    return sys_pipeline("C11", W, scen, None, ASSUME_SYS + ["histories are sequential (the property quantifies over histories, not schedules)"], replay=replay)
+
+
+def c13(W, replay=None):
+    W.build()
+    scen = [] if replay else family(W, "C13")
+    return sys_pipeline("C13", W, scen, None, ASSUME_SYS + ["Location values are parsed with net/url, independently of how the service assembled them"], replay=replay)
+
+
+def c14(W, replay=None):
+    W.build()
+    scen = []
+    if not replay:
+        scen = family(W, "C02", "quick") + family(W, "C11", "quick") + family(W, "C15", "quick") + family(W, "C05", "quick")
+        for prep, kw in [("expired", dict(MaxApps=1)), ("midLogin", dict(MaxCallbacks=1)), ("fresh", dict(MaxLogouts=1))]:
+            ms = export(W, "c14-%s" % prep, Prepared='"%s"' % prep, Target=1, MaxFaults=2 if W.tier == "thorough" else 1, Checks="{1,2,3,4}", MaxSid=3, MaxTok=4, **kw)
+            scen += [conv(m, "c14/%s/%d" % (prep, i), 1, store=("memory", "redis")[i % 2], probes=finish_all(m) + [PROBE_APP]) for i, m in enumerate(ms)]
+        scen += random_histories(W, 500 if W.tier == "thorough" else 50, faults=True)
+    return sys_pipeline("C14", W, scen, None, ASSUME_SYS + ["every secret is a unique marker; an occurrence raw, percent-, base64-, base64url- or hex-encoded is detected"], replay=replay)
+
+
+def c15(W, replay=None):
+    W.build()
+    scen = []
+    if not replay:
+        scen = family(W, "C15")
+        if W.tier == "thorough":
+            scen += random_histories(W, 500, faults=True)
+    return sys_pipeline("C15", W, scen, None, ["a panic is recovered by the harness around ExtAuthZFilter.Check and logged as an event no action of the specification accepts as well-formed"],
+                        level="exploration", replay=replay, extra_cov={"rule": "one scenario per element of Families!C15Space (request shape x path x session, provider body class x grant, claim-type class x variant); distinct = distinct scenario ids"})
+
+
+def c18(W, replay=None):
+    W.build()
+    scen = []
+    if not replay:
+        out, viol = W.tlc_exhaustive("AuthFlow", af_cfg(["HonouredOnlyByCreator"], Checks="{1,2,3,4}", Filters="{1,2}", MaxInFlight=1, Attacker="TRUE", TokLife=1,
+                                                       Kinds='{"app","callback"}', KeyedByIdOnly="FALSE"), "c18-design-keyed-by-filter", workers=16, timeout=3000)
+        if viol:
+            raise Infra("AuthFlow with KeyedByIdOnly=FALSE violates %s" % viol)
+        out, viol = W.tlc_exhaustive("AuthFlow", af_cfg(["HonouredOnlyByCreator"], Checks="{1,2,3,4}", Filters="{1,2}", MaxInFlight=1, Attacker="TRUE", TokLife=1,
+                                                       Kinds='{"app","callback"}', KeyedByIdOnly="TRUE"), "c18-design-as-coded", workers=16, timeout=3000, expect_violation=True)
+        log("[design] as coded (shared store looked up by session id alone) the model %s HonouredOnlyByCreator" % ("VIOLATES" if viol else "satisfies"))
+        scen = family(W, "C18")
+    return sys_pipeline("C18", W, scen, None, ASSUME_SYS, replay=replay)
+
+
+# ---------------------------------------------------------------------------------------------
+REGISTRY = {"C01": c01, "C02": c02, "C03": c03, "C04": c04, "C05": c05, "C09": c09, "C11": c11, "C13": c13, "C14": c14, "C15": c15, "C18": c18}
 
 
 def run(prop, W, replay=None):
